@@ -38,12 +38,14 @@ static const char* RULES_SRC =
     "rule e_s { condition: ext_s == \"t1\" or ext_s contains \"2\" }\n rule e_b { condition: ext_b }\n rule e_f { condition: ext_f > 0.25 }\n"
     "rule loops { condition: for all i in (0..2000) : ( uint8(i % filesize) + i >= 0 ) }\n"
     "rule ref { condition: s_text and not e_i3 }\n"
+    "rule fib { strings: $f = /(a{1,50}){1,50}b/ condition: $f }\n"
+    "rule chain { strings: $c = { 43 48 41 49 4E 48 45 41 44 [250-400] 43 48 41 49 4E 54 41 49 4C } $d = \"CHAINHEAD\" condition: #c >= 0 or $d }\n"
     "private rule priv { condition: filesize > 10 }\n global rule glob { condition: filesize > 0 }\n";
 
-enum { K_SCANNER_MEM, K_SCANNER_FILE, K_RULES_MEM, K_RULES_FILE, K_ABORT, K_CBERROR, K_NOFILE, K_REUSE, K_FAST, K_FD, K_TIMEOUT, K_NKINDS };
-static const char* KNAME[] = {"scanner_mem", "scanner_file", "rules_mem", "rules_file", "cb_abort", "cb_error", "missing_file", "scanner_reuse", "fast_mode", "scan_fd", "timeout"};
+enum { K_SCANNER_MEM, K_SCANNER_FILE, K_RULES_MEM, K_RULES_FILE, K_ABORT, K_CBERROR, K_NOFILE, K_REUSE, K_FAST, K_FD, K_UNMAPPABLE, K_TIMEOUT, K_NKINDS };
+static const char* KNAME[] = {"scanner_mem", "scanner_file", "rules_mem", "rules_file", "cb_abort", "cb_error", "missing_file", "scanner_reuse", "fast_mode", "scan_fd", "unmappable_file", "timeout"};
 
-#define NBUF 6
+#define NBUF 8
 static const char* workdir_g;
 static uint8_t* bufs[NBUF]; static size_t blen[NBUF]; static char bpath[NBUF][512];
 static YR_RULES* rules;           // the read-only relocated rule set
@@ -52,7 +54,9 @@ static struct { uint8_t* p; size_t len; size_t used; } ro[YR_MAX_ARENA_BUFFERS +
 static int ro_ok;
 static YR_RULES* keep_r1;
 
-typedef struct { uint64_t h; int n; int stop_at; int mode; int sleep_ms; } TRACE;
+typedef struct { uint64_t h; int n; int stop_at; int mode; int sleep_ms; int expect_chain; } TRACE;   // expect_chain: 1 + number of occurrences of the chained string planted in the buffer (0 = unknown)
+static int chain_bad;
+static const char* unmappable_path = "/nonexistent/verif/unmappable";
 typedef struct { int rc; uint64_t h; int n; } RES;
 typedef struct { int idx, kind, iters, seed; RES* out; int fresh; } JOB;   // fresh: reference run — a reused scanner is replaced by a new one per scan
 
@@ -105,16 +109,20 @@ static int cb(YR_SCAN_CONTEXT* ctx, int msg, void* data, void* ud)
     t->h = fnv(t->h, r->identifier, strlen(r->identifier));
     if (msg == CALLBACK_MSG_RULE_MATCHING)
     {
-      YR_STRING* s; YR_MATCH* m;
+      YR_STRING* s; YR_MATCH* m; int chain_seen = 0;
       yr_rule_strings_foreach(r, s)
       {
         t->h = fnv(t->h, s->identifier, strlen(s->identifier));
+        int nm = 0;
         yr_string_matches_foreach(ctx, s, m)
         {
           t->h = fnv(t->h, &m->offset, sizeof m->offset); t->h = fnv(t->h, &m->match_length, sizeof m->match_length);
-          t->h = fnv(t->h, m->data, m->data_length);
+          t->h = fnv(t->h, m->data, m->data_length); nm++;
         }
+        if (!strcmp(s->identifier, "$c")) chain_seen += nm;   // the fragments of a chained string share the identifier; the matches hang off one of them
       }
+      // ground truth for the chained hex string (jump > 200): every planted occurrence must be enumerated, whatever the scanner did before
+      if (t->expect_chain && !strcmp(r->identifier, "chain") && chain_seen != t->expect_chain - 1) __atomic_add_fetch(&chain_bad, 1, __ATOMIC_RELAXED);
     }
   }
   else if (msg == CALLBACK_MSG_IMPORT_MODULE)
@@ -149,7 +157,7 @@ static void work(JOB* j)
   {
     int b = (j->kind == K_REUSE) ? (int) (((unsigned) (j->idx * 2654435761u + j->seed * 40503u) >> 3) + it * (1 + (j->idx + j->seed) % 5)) % NBUF
                                  : (j->idx * 7 + it * 3 + j->seed) % NBUF;
-    TRACE t = {0xcbf29ce484222325ULL, 0, 0, 0, 0};
+    TRACE t = {0xcbf29ce484222325ULL, 0, 0, 0, 0, (b == 7 ? 2 : 0) + 1};
     int rc = -1;
     int flags = SCAN_FLAGS_REPORT_RULES_MATCHING | SCAN_FLAGS_REPORT_RULES_NOT_MATCHING;
     switch (j->kind)
@@ -195,6 +203,7 @@ static void work(JOB* j)
       if (j->kind == K_CBERROR) { t.stop_at = 2 + (j->idx + it) % 7; t.mode = CALLBACK_ERROR; }
       if (j->kind == K_TIMEOUT) { yr_scanner_set_timeout(sc, 1); t.sleep_ms = 1600; }
       if (j->kind == K_NOFILE) rc = yr_scanner_scan_file(sc, "/nonexistent/verif/c09");
+      else if (j->kind == K_UNMAPPABLE) rc = yr_scanner_scan_file(sc, unmappable_path);   // opens and stats fine, mmap fails
       else if (j->kind == K_SCANNER_FILE) rc = yr_scanner_scan_file(sc, bpath[b]);
       else rc = yr_scanner_scan_mem(sc, bufs[b], blen[b]);
       yr_scanner_destroy(sc);
@@ -359,11 +368,38 @@ static void protect(int on)
     if (mprotect(ro[i].p, ro[i].len, on ? PROT_READ : PROT_READ | PROT_WRITE) != 0) DIE("mprotect");
 }
 
+#include <dirent.h>
+static int count_fds(void)
+{
+  DIR* d = opendir("/proc/self/fd"); if (!d) return -1;
+  int n = 0; struct dirent* e;
+  while ((e = readdir(d)) != NULL) if (e->d_name[0] != '.') n++;
+  closedir(d);
+  return n;
+}
+// a file that opens and stats as a non-empty regular file but cannot be memory-mapped (sysfs attributes: mmap gives ENODEV)
+static void probe_unmappable(void)
+{
+  static const char* cand[] = {"/sys/devices/system/cpu/online", "/sys/kernel/mm/transparent_hugepage/enabled", "/sys/class/net/lo/mtu", "/sys/kernel/notes", NULL};
+  for (int i = 0; cand[i]; i++)
+  {
+    int fd = open(cand[i], O_RDONLY); if (fd < 0) continue;
+    struct stat st;
+    if (fstat(fd, &st) == 0 && S_ISREG(st.st_mode) && st.st_size > 0)
+    {
+      void* m = mmap(NULL, (size_t) st.st_size, PROT_READ, MAP_PRIVATE, fd, 0);
+      if (m == MAP_FAILED) { unmappable_path = cand[i]; close(fd); return; }
+      munmap(m, (size_t) st.st_size);
+    }
+    close(fd);
+  }
+}
+
 static void make_buffers(const char* dir)
 {
   for (int b = 0; b < NBUF; b++)
   {
-    size_t n = (size_t[]){3000, 70000, 12345, 4096, 200000, 64}[b];
+    size_t n = (size_t[]){3000, 70000, 12345, 4096, 200000, 64, 5000, 3500}[b];
     bufs[b] = (uint8_t*) malloc(n); blen[b] = n;
     uint64_t s = 0x9E3779B97F4A7C15ULL * (b + 1);
     for (size_t i = 0; i < n; i++) { s ^= s << 13; s ^= s >> 7; s ^= s << 17; bufs[b][i] = (b % 2) ? (uint8_t) (s >> 33) : (uint8_t) ("abcdefghij 0123456789\n"[(s >> 20) % 22]); }
@@ -372,6 +408,8 @@ static void make_buffers(const char* dir)
     for (int k = 0; k < 7; k++) { size_t at = (n / 9) * (k + 1) % (n > 16 ? n - 16 : 1); if (at + plen[k] < n && (k + b) % 3 != 0) memcpy(bufs[b] + at, plant[k], plen[k]); }
     if (b == 1 || b == 4) { memcpy(bufs[b], "MZ", 2); memset(bufs[b] + 2, 0, 62); bufs[b][0x3c] = 0x40; memcpy(bufs[b] + 0x40, "PE\0\0\x4c\x01\x01\0", 8); bufs[b][0x40 + 20] = 0xE0; bufs[b][0x40 + 24] = 0x0b; bufs[b][0x40 + 25] = 0x01; }
     if (b == 3) memcpy(bufs[b], "\x7f" "ELF\x02\x01\x01", 7);
+    if (b == 6) { memset(bufs[b] + 4, 'a', n - 8); }                       // exhausts the regexp fibres of rule `fib` (ERROR_TOO_MANY_RE_FIBERS)
+    if (b == 7) for (int k = 0; k < 2; k++) { memcpy(bufs[b] + 100 + 1500 * k, "CHAINHEAD", 9); memcpy(bufs[b] + 100 + 1500 * k + 9 + 300, "CHAINTAIL", 9); }
     snprintf(bpath[b], sizeof bpath[b], "%s/buf%d.bin", dir, b);
     FILE* f = fopen(bpath[b], "wb"); if (!f) DIE("cannot write %s", bpath[b]);
     fwrite(bufs[b], 1, n, f); fclose(f);
@@ -386,6 +424,7 @@ int main(int argc, char** argv)
   yr_initialize();
   { struct sigaction sa; memset(&sa, 0, sizeof sa); sa.sa_sigaction = app_handler; sa.sa_flags = SA_SIGINFO; sigemptyset(&sa.sa_mask); sigaction(SIGBUS, &sa, NULL); }
   make_buffers(argv[1]);
+  probe_unmappable();
   YR_COMPILER* comp; VF_ERRS e = {{0}, 0, 0};
   yr_compiler_create(&comp); yr_compiler_set_callback(comp, vf_compiler_cb, &e);
   yr_compiler_define_integer_variable(comp, "ext_i", 0); yr_compiler_define_string_variable(comp, "ext_s", "t0");
@@ -410,7 +449,7 @@ int main(int argc, char** argv)
   }
   if (yr_compiler_get_rules(comp, &old_rules) != ERROR_SUCCESS) DIE("get_rules");
   yr_compiler_destroy(comp);
-  ro_ok = relocate_readonly(old_rules);
+  ro_ok = getenv("H_CONC_NORELOC") ? 0 : relocate_readonly(old_rules);
   if (!ro_ok) { rules = old_rules; nro = 0; }
 
   char* line = NULL; size_t cap = 0; static char* t[8];
@@ -525,7 +564,8 @@ int main(int argc, char** argv)
       conj[i] = (JOB){i, kind, its, seed, (RES*) calloc(its, sizeof(RES)), 0};
     }
     uint64_t h0 = rules_hash();
-    hnd_inside_bad = 0; hnd_outside_bad = 0; fd_bad = 0;
+    hnd_inside_bad = 0; hnd_outside_bad = 0; fd_bad = 0; chain_bad = 0;
+    int fds0 = count_fds();
     if (!app_handler_installed()) hnd_outside_bad++;
     if (prot) protect(1);
     for (int i = 0; i < nt; i++) work(&seqj[i]);             // each logical thread alone
@@ -552,8 +592,8 @@ int main(int argc, char** argv)
           mism++;
         }
       }
-    printf("%s n=%d scans=%d mismatch=%d rules_hash=%s ro=%d handler_inside_bad=%d handler_outside_bad=%d fd_bad=%d foreign_after=%d kinds=", t[0], nt, scans, mism, h0 == h1 ? "same" : "CHANGED", prot,
-           hnd_inside_bad, hnd_outside_bad, fd_bad, foreign_fault(1));
+    printf("%s n=%d scans=%d mismatch=%d rules_hash=%s ro=%d handler_inside_bad=%d handler_outside_bad=%d fd_bad=%d foreign_after=%d chain_bad=%d fd_delta=%d unmappable=%s kinds=", t[0], nt, scans, mism, h0 == h1 ? "same" : "CHANGED", prot,
+           hnd_inside_bad, hnd_outside_bad, fd_bad, foreign_fault(1), chain_bad, count_fds() - fds0, unmappable_path[1] == 's' ? "sysfs" : "none");
     for (int k = 0; k < K_NKINDS; k++) if (kinds[k]) printf("%s:%d,", KNAME[k], kinds[k]);
     printf(" rcs=");
     for (int k = 0; k < 80; k++) if (rch[k]) printf("%s:%d,", errname(k), rch[k]);
